@@ -180,6 +180,8 @@ OCT [0-7]
 
 <STRING>"%(" {
   yylval->f->flush_str ();
+  // The previous embedded expression left this set.
+  yylval->f->in_string = false;
   BEGIN STRING_EMBEDDED;
 }
 
